@@ -94,7 +94,13 @@ func toIdentRef(bases []*meta.Identity, v interface{}) (val.IdentRef, error) {
 		x = x[colon+1:]
 	}
 
-	ref := meta.FindIdentity(bases, x)
+	// RFC 7950 9.10.2: the value is an identity derived from the base, not the base itself
+	var ref *meta.Identity
+	for _, base := range bases {
+		if ref = meta.FindIdentity(base.DerivedDirect(), x); ref != nil {
+			break
+		}
+	}
 	if ref == nil {
 		return empty, fmt.Errorf("could not find identity ref for %T:'%s'", v, x)
 	}
